@@ -45,9 +45,17 @@ def run_version(args):
         t = rig.t
         c = 1
         pend = None
+        stale = None
+        if pend_cmd and pend_cmd.startswith("stale-"):
+            # a registration left behind by a call that timed out / whose caller was cancelled: frames carrying its number arrive late
+            stale, pend_cmd = pend_cmd.split(":")[0], pend_cmd.split(":")[1]
         if pend_cmd:
             ev = await rig.call(c, pend_cmd)
             pend = next((o for o in ev["out"] if o["o"] == "sent"), None)
+            if stale == "stale-timeout":
+                await rig.tick()
+            elif stale == "stale-cancel":
+                await rig.cancel(c)
         n_cb = len(rig.out)
         rig._last_cb_args = None
         ev = await rig.frame(0, "", 0, raw=bytes(raw), kind="mal")
@@ -82,7 +90,7 @@ def run_version(args):
                 rig.last_cb_n = len(args) if isinstance(args, (list, tuple)) else 1
                 try:
                     rig.last_cb_reenc = b"".join(a.serialize() for a in args)
-                except Exception:
+                except BaseException:
                     rig.last_cb_reenc = b"\xff" * 300
                 orig(name, args)
             rig.ezsp._callbacks = {k: (cb if v == orig else v) for k, v in rig.ezsp._callbacks.items()}
@@ -138,6 +146,10 @@ def run_version(args):
         for raw, label in muts:
             for pend_cmd in (None, "getNodeId") if not quick or rng.random() < 0.5 else ((None,) if rng.random() < 0.5 else ("getNodeId",)):
                 job(pend_cmd, raw, label + ":" + name)
+            if label in ("valid", "surplus", "idsub", "seqsub") or not quick or rng.random() < 0.15:
+                job(rng.choice(("stale-timeout:getNodeId", "stale-cancel:getNodeId")) if quick else "stale-timeout:getNodeId", raw, label + ":" + name)
+                if not quick:
+                    job("stale-cancel:getNodeId", raw, label + ":" + name)
     # a fully valid frame of ANOTHER command under the pending command's sequence number
     from .c07 import gen
     cmds = holder["cmds"]
@@ -154,6 +166,13 @@ def run_version(args):
             payload = b"".join(v.serialize() for v in vals)
             raw = ncp_ezsp.make_header(ncp_ezsp.layout_of(ver), 0, int(cmds[name][0]), response=True) + payload
             job(pend_cmd, raw, "foreign:" + name)
+    # the late genuine reply, the same reply twice, and invalidCommand under the number of a call that timed out / was cancelled
+    for st in ("stale-timeout", "stale-cancel"):
+        for pc in [c for c in ("getNodeId", "nop", "getEui64", "networkState") if c in cmds]:
+            for name in (pc, "invalidCommand"):
+                vals = [gen(ty, rng) for ty in cmds[name][2].values()]
+                raw = ncp_ezsp.make_header(ncp_ezsp.layout_of(ver), 0, int(cmds[name][0]), response=True) + b"".join(v.serialize() for v in vals)
+                job(f"{st}:{pc}", raw, "late:" + name)
     for _ in range(n_random):                                      # uniformly random byte strings
         raw = bytes(rng.randrange(256) for _ in range(rng.choice((0, 1, 2, 3, 4, 5, 6, 8, 12, 30))))
         job(rng.choice((None, "getNodeId", "sendUnicast", "readCounters")), raw, "random")
@@ -175,7 +194,7 @@ def run(ctx: Ctx):
     ctx.distinct_nontrivial = len({(m["ver"], m["pend"], m["raw"]) for m in metas})
     ctx.rule = ("per protocol version 4..14: valid responses and callbacks of up to 12 commands (two sequence numbers each) mutated by truncation at "
                 "every length, a byte flip at every position, frame-ID and sequence substitution, surplus bytes, plus uniformly random byte strings; "
-                "each with and without a pending command, each followed by the pending call's real reply and a probe command; distinct = distinct (version, pending, bytes)")
+                "each with and without a pending command and with the registration of a timed-out / cancelled call still present (late genuine replies included), each followed by the pending call's real reply and a probe command; distinct = distinct (version, pending, bytes)")
     ctx.add_sample({"meta": metas[11], "trace": traces[11]})
     ctx.validate_traces("Trace_EzspCmd", traces, constants=consts(), invariants=INVS, metas=metas, label="malformed frames", sig=sig)
     ctx.exhaustive = False
@@ -203,15 +222,22 @@ def replay(ctx: Ctx, data):
             rig.last_cb_n = len(args) if isinstance(args, (list, tuple)) else 1
             try:
                 rig.last_cb_reenc = b"".join(a.serialize() for a in args)
-            except Exception:
+            except BaseException:
                 rig.last_cb_reenc = b"\xff" * 300
             orig(name, args)
         rig.ezsp._callbacks = {k: (cb if v == orig else v) for k, v in rig.ezsp._callbacks.items()}
         pend_cmd = m["pend"]
         pend = None
+        stale = None
+        if pend_cmd and pend_cmd.startswith("stale-"):
+            stale, pend_cmd = pend_cmd.split(":")[0], pend_cmd.split(":")[1]
         if pend_cmd:
             ev = await rig.call(1, pend_cmd)
             pend = next((o for o in ev["out"] if o["o"] == "sent"), None)
+            if stale == "stale-timeout":
+                await rig.tick()
+            elif stale == "stale-cancel":
+                await rig.cancel(1)
         ev = await rig.frame(0, "", 0, raw=raw, kind="mal")
         ev["ver"] = ver
         ev["ids"] = sorted(int(cid) for cid, _a, _b in rig.cmds.values())
